@@ -2,21 +2,21 @@ From Coq Require Import ZArith NArith List Bool.
 Require Import Value Bytes Crc Sha2 Hmac Aes Modes MbiMixinModel GenMbi MbiModel MbiRomModel MbiRomProofs.
 Import ListNotations.
 
-(* C02: certificate-block-v2.1 classes (ECC; LPC55S3x, MCXN, KW45/K32W1/MCXW71, RW61x, RT7xx): the exported image is
-   msg ++ signature ++ [digest] where msg = application with IVT ++ certificate block ++ manifest; the ROM model accepts it:
-   root key record / ISK certificate checks (cb_v21_ok: hash of the root key = entry used_index of the table whose hash is
-   RKTH), manifest header, manifest CRC (CRC variant), and its single image-signature obligation is over exactly msg -- the
-   bytes through the manifest -- under the ISK or the selected root key.  The hypothesis on m_digest excludes the
-   recorded finding C02-F1. *)
+(* C02: certificate-block-v2.1 classes (ECC; LPC55S3x, MCXN, KW45/K32W1/MCXW71, RW61x, RT7xx): whatever the exporter
+   (export_c02: the export pipeline behind the manifest-digest check of collect_data) emits is msg ++ signature ++ [digest]
+   with msg = application with IVT ++ certificate block ++ manifest, and the ROM model accepts it: root key record / ISK
+   certificate checks (cb_v21_ok: hash of the root key = entry used_index of the table whose hash is RKTH), manifest header,
+   manifest CRC (CRC variant), digest algorithm = hash of the signing key, and its single image-signature obligation is over
+   exactly msg -- the bytes through the manifest -- under the ISK or the selected root key. *)
 Theorem sig_range_v21 :
   forall (sign : list N -> list N) (c : mbi_class) (x : mbi) (img : list N) (cfg : rom_cfg) (keys : rom_keys)
          (body : list N) (sg : nat) (info : cb21_info),
     k_v21 c = true -> wf_input x -> m_cert x = Some (CertV21 body sg) -> cb_v21_ok (rk_rkth keys) body info ->
     r_cb cfg = CbV21 -> r_hmac cfg = false -> r_mcrc cfg = has c MixinManifestCrc -> In (c_type c) (r_types cfg) ->
-    tz_ok (r_tzsize cfg) x -> (0 <= m_digest x <= 3)%Z -> (m_digest x = 0 \/ m_digest x = c2_alg info - 1)%Z ->
+    tz_ok (r_tzsize cfg) x -> (0 <= m_digest x <= 3)%Z ->
     sg = (2 * klen_of info)%nat -> (forall m, length (sign m) = sg) ->
-    export_mbi (real_crypto sign) c x = Ok img ->
+    export_c02 (real_crypto sign) c x = Ok img ->
     exists msg, img = msg ++ sign msg ++ v21_digest c x msg /\
       rom_mbi cfg keys img = Some {| ro_plain := msg; ro_msg := msg; ro_obl := v21_obl info msg (sign msg) |}.
-Proof. exact v21_accept_l. Qed.
+Proof. exact v21_accept_c02_l. Qed.
 Print Assumptions sig_range_v21.
